@@ -74,3 +74,4 @@ def count(name, lines, ib, stats, meta):
             if len(stats['samples']) < 6 and st0 != st1:
                 stats['samples'].append({'state': st0, 'event': b.op.split()[2], 'elapsed_s': int(t1) - int(t0), 'new_state': st1})
         if 'sess' in b.kv: prev = b.kv['sess']
+EXPLORE = dict(skip_ops=('set_map', 'set_sess', 'set_enum', 'band_set'), ops=('ss_sess', 'adv'), mtu=False, num={'ss_sess': {2: (0, 7)}, 'adv': {1: (0, 20000)}})
